@@ -27,7 +27,6 @@ P = {
     "C02.f": "by evaluation of parse_tree_to_objgraph.process_node / process_match on a sample parse tree (12 objects and values, sample meta-classes, recording meta-model stand-ins): = stores one value, ?= stores True (False when absent), += stores every element in input order; a second value for a single-valued attribute is a 'Multiple assignments' TextXSemanticError",
     "C01.e": "(shared with C01) many-valued attributes start as [] for every configuration; base-type defaults follow the documented table",
     "C08.a": "(shared with C08) list references are stored positionally, not in resolution order",
-    "C08.b": "(shared with C08) the position table is per list, persistent and updated in parallel with the list",
     "C08.d": "the resolver as a state machine, by evaluation (ReferenceResolver instantiated by interpreting __init__, resolve_one_step interpreted round after round with a provider stand-in that follows a postponement schedule): three references of one list postponed for 0-2 rounds each (27 schedules, a second list of the same object and the same attribute of a second object alongside) always end in textual order, each once",
     "C08.e": 'by evaluation of parse_tree_to_objgraph.process_node / process_match on a sample parse tree (12 objects and values, sample meta-classes, recording meta-model stand-ins): every queued reference carries name, target class, start and end of its own text and is queued for the object and attribute it was written in, in textual order; separators are skipped',
   },
@@ -103,14 +102,12 @@ P = {
 "C08": dict(
   decided={
     "C08.a": "because a defer (Postponed) path exists in resolve_one_step, many-valued references must be stored positionally (index derived from the cross-reference) or re-ordered before exposure; a bare append in resolution order is a violation",
-    "C08.b": "the index of the positional store comes from a position table whose key covers the list's determinants (owning object and attribute) injectively, which outlives a resolution round, and which is updated in parallel with the list (same index, same key) and by nothing else",
   },
   declined="nothing else: with C02.c the clause is the property",
   technique="defer-path / store-path analysis on the resolver loop (CFG + path atoms)"),
 "C09": dict(
   decided={
     "C08.a": "(shared with C08) result independent of the resolution order: list references are stored positionally",
-    "C08.b": "(shared with C08) the position table is per list, persistent across rounds and updated in parallel with the list",
     "C09.a": "conservation: every cross-reference taken from the work list ends in exactly one of re-queued / counted+stored / exception (all paths of the loop body)",
     "C09.b": "driver loop: condition conjoins 'unresolved > 0' and 'resolved this round > 0'; counters reset each iteration and fed only by resolve_one_step",
     "C09.c": "the unresolved error is raised iff the counter is positive after the loop; by evaluation of that branch: references left over end in a TextXSemanticError",
@@ -217,6 +214,7 @@ P = {
   decided={
     "C16.f": "while objects are built, conversions and processors come from the metamodel of the parser that produced the tree (receiver of every process/has_obj_processor in parse_tree_to_objgraph); _tx_metamodel is never read through a rule or class object (base-type rule objects are shared by all metamodels)",
     "C17.i": "every model gets a repository object of its own: each store into <model>._tx_model_repository binds a GlobalModelRepository constructed there (only all_models is shared through the constructor)",
+    "C16.h": "the GlobalRepo provider object is configuration, not state (by evaluation of GlobalRepo.__init__ / register_models / add_model / _load_referenced_models with a recording repository): every load resolves relative patterns against its own project_root and hands model, glob_args, encoding and parameters on; no load changes the provider",
     "C16.a": "every load obtains its parser by cloning the blueprint; clone() re-initialises every mutable container __init__ creates (writer/reader table agreement, copy.copy is shallow)",
     "C16.d": "no mutable default argument is stored or mutated anywhere in the package (process-wide shared state)",
     "C16.c": "a value stored in a process-wide (module- or class-level) cache is keyed by everything it was computed from (per-(cache,input) exceptions with a reason)",
